@@ -23,7 +23,7 @@ type c8Member struct {
 
 func c08Run(w *W) {
 	topo := []string{"bus-mesh", "bus-chain-cooked", "bus-device", "star", "star-tree"}[w.Choose(simrt.SShape, 5)]
-	tran := w.simFallback([]string{"inproc", "sim", "tcp", "ipc", "tls+tcp"}[w.Choose(simrt.SShape, 5)])
+	tran := w.simFallback([]string{"inproc", "sim", "tcp", "ipc", "tls+tcp", "ws", "wss"}[w.Choose(simrt.SShape, 7)])
 	n := 2 + w.Choose(simrt.SShape, 3)
 	nmsg := 1 + w.Choose(simrt.SShape, 6)
 	ntask := 1 + w.Choose(simrt.SShape, 2)
